@@ -4,6 +4,7 @@ import BddModel.Expr
 import BddModel.Raw
 import BddModel.Eda
 import BddModel.EdaFast
+import BddModel.Bits
 /-! Line-protocol driver: one operation per input line, one canonical reply line.
 The Rust harness executes the same lines on the real crate and compares the replies. -/
 open P Arr
@@ -543,7 +544,67 @@ def step (d : DState) (line : String) : DState × String :=
       | .ok t => ({ d with tab := t }, "ok")
       | .error e => (d, "panic " ++ e.toString)
     | none => bad
+  | ["t.setnext", i, n] =>
+    match i.toNat?, n.toNat? with
+    | some i, some n =>
+      if i ≥ d.tab.vals.size then bad else
+      match d.tab.setNextChecked i n with
+      | .ok t =>
+        -- the reply is computed on the packed word, as the code does (`Entry::next: u32`)
+        let w0 := Bits.entSetOccupied (Bits.entSetNext 0 (BitVec.ofNat 32 (Arr.rd d.tab.nxs i))) (Arr.rd d.tab.occs i)
+        let w1 := Bits.entSetNext w0 (BitVec.ofNat 32 n)
+        ({ d with tab := t }, "next=" ++ toString (Bits.entNext w1).toNat ++ " occ=" ++ boolS (Bits.entOccupied w1))
+      | .error e => (d, "panic " ++ e.toString)
+    | _, _ => bad
+  | ["t.setvalue", i, v, _how] =>
+    match i.toNat?, v.toNat? with
+    | some i, some v =>
+      if i ≥ d.tab.vals.size then bad else
+      match d.tab.setValue i ⟨v, d.tabKind⟩ with
+      | .ok t => ({ d with tab := t }, toString (Arr.rd t.vals i).v ++ " " ++ toString (Arr.rd t.vals i).v)
+      | .error e => (d, "panic " ++ e.toString)
+    | _, _ => bad
   | ["t.dump"] => (d, tableSnapshot d.tab (fun it => toString it.v))
+  -- packed words, literal conversions, the pairing functions the manager does not use
+  | ["ref.new", i, n] =>
+    match i.toNat? with
+    | some i =>
+      if i = 0 ∨ i ≥ 2147483648 then bad else
+      let r := Bits.refNew (BitVec.ofNat 32 i) (n == "1")
+      let m := Bits.refNeg r
+      (d, "h=" ++ toString (Bits.refHashy r).toNat ++ " idx=" ++ toString (Bits.refIndex r).toNat ++
+        " neg=" ++ boolS (Bits.refIsNegated r) ++ " nh=" ++ toString (Bits.refHashy m).toNat ++
+        " nidx=" ++ toString (Bits.refIndex m).toNat ++ " nneg=" ++ boolS (Bits.refIsNegated m) ++
+        " disp=" ++ Bits.refShow r ++ " ndisp=" ++ Bits.refShow m)
+    | none => bad
+  | ["lit.cube", lit] =>
+    match lit.toInt? with
+    | some l =>
+      if l = 0 ∨ l ≤ -2147483648 ∨ l ≥ 2147483648 then bad else
+      let w := BitVec.ofInt 32 l
+      (d, "var=" ++ toString (Bits.litVar w).toNat ++ " neg=" ++ boolS (Bits.litIsNeg w))
+    | none => bad
+  | ["lit.onesat", v, neg] =>
+    match v.toNat? with
+    | some v =>
+      if v = 0 ∨ v = 2147483648 ∨ v ≥ 4294967296 then bad else
+      let w := if neg == "1" then Bits.litNeg (BitVec.ofNat 32 v) else Bits.litPos (BitVec.ofNat 32 v)
+      let l := "[" ++ toString w.toInt ++ "]"
+      (d, "Some(" ++ l ++ ") [" ++ l ++ "]")
+    | none => bad
+  | ["pair.cantor", a, b] =>
+    match a.toNat?, b.toNat? with
+    | some a, some b => (d, toString (pairingCantor a b))
+    | _, _ => bad
+  | ["pair.hopcroft", a, b] =>
+    match a.toNat?, b.toNat? with
+    | some a, some b => (d, match pairingHopcroft a b with | .ok x => toString x | .error e => "panic " ++ e.toString)
+    | _, _ => bad
+  | ["pair.four", a, b, c, e] =>
+    match a.toNat?, b.toNat?, c.toNat?, e.toNat? with
+    | some a, some b, some c, some e =>
+      (d, toString (pairing4 (UInt64.ofNat a) (UInt64.ofNat b) (UInt64.ofNat c) (UInt64.ofNat e)).toNat)
+    | _, _, _, _ => bad
   -- Table<Node> driven directly (triples need not be well-formed nodes)
   | ["tn.new", bits, bb] =>
     match bits.toNat?, bb.toNat? with
